@@ -681,7 +681,18 @@ func GenDoc(t *rapid.T, o GenOpts) *Doc {
 				u.Children = append(u.Children, g.method(vb, "", base, declared))
 			}
 			blocks = append(blocks, u)
-			if g.chance(1, 3, "hoisted") {
+			if u.Child("Protocol") == nil && g.chance(1, 4, "samePathMethod") {
+				// a path-bearing method on the URL's own path (another verb), written
+				// right after the URL block
+				for _, vb := range []string{"PUT", "PATCH", "DELETE", "POST", "GET"} {
+					if !used[vb] && u.Child("PASTE") == nil {
+						sm := g.method(vb, base, base, declared)
+						sm.Hoisted = true
+						blocks[len(blocks)-1] = &Dir{ID: -1, Kw: "__unit__", Children: []*Dir{u, sm}}
+						break
+					}
+				}
+			} else if g.chance(1, 3, "hoisted") {
 				sub := base + fmt.Sprintf("/sub/{b%d}", f)
 				hm := g.method(g.pickStr(verbs, "hverb"), sub, sub, declared)
 				hm.Hoisted = true
